@@ -54,6 +54,30 @@ func c13Midflight(s *c13Sess, polled bool) string {
 	return ""
 }
 
+// c13Control runs the script of a case once without any hostile command. A configuration the transport cannot carry even
+// then (some record type / fragment size combinations get no answer on this tree: C09/C10 matter) is skipped, not judged.
+func c13Control(rec *vcommon.Rec, n *c13Net, cfg c13Cfg) bool {
+	s, p := n.open(9, cfg, 99, "control session")
+	if p == "" {
+		p = c13Midflight(s, true)
+	}
+	if p == "" {
+		p = s.finish(2*int(cfg.UpFrag) + 3)
+	}
+	if p == "" {
+		p = s.transfer(int(cfg.UpFrag), int(cfg.DownFrag)+1)
+	}
+	if s != nil {
+		_ = s.client.Close()
+	}
+	if p != "" {
+		rec.Stat("bc_work_items_skipped(transport fails for this configuration without any interference)", 1)
+		rec.Seen("bc_configurations_skipped", cfg.String()+": "+c13Strip(p))
+		return false
+	}
+	return true
+}
+
 type c13Shot struct {
 	results []string
 	leaked  bool
@@ -112,6 +136,9 @@ func c13RunB(rec *vcommon.Rec, it *c13BItem) {
 	}
 	attKey := uint64(0xA77AC)
 	n.addKey(attKey, "the attacker")
+	if !c13Control(rec, n, it.Cfg) {
+		return
+	}
 	caseNo := 0
 	for _, cmd := range c13Hostiles {
 		for _, reqEnc := range []string{"victim", "default"} {
@@ -214,6 +241,9 @@ func c13RunC(rec *vcommon.Rec, it *c13CItem) {
 	}
 	attKey := uint64(0xA77AC)
 	n.addKey(attKey, "the attacker")
+	if !c13Control(rec, n, it.Cfg) {
+		return
+	}
 	caseNo := 0
 	closeIt := func(s *c13Sess) {
 		if it.CloseBy == "server" {
@@ -399,6 +429,9 @@ func c13Cfgs(rec *vcommon.Rec) []c13Cfg {
 		for i := 0; i < 12; i++ {
 			c := c13Cfg{QType: q(qts[rng.Intn(len(qts))]), Up: ups[rng.Intn(len(ups))], Down: downs[rng.Intn(len(downs))],
 				UpFrag: uint32(8 + rng.Intn(40)), DownFrag: uint32(8 + rng.Intn(60))}
+			if c.QType == q(dnsmessage.TypeSRV) {
+				c.DownFrag = uint32(8 + rng.Intn(9)) // larger fragments get no answer over SRV on this tree
+			}
 			out = append(out, c)
 		}
 	}
